@@ -195,8 +195,10 @@ class OsPath(PurePosixPath):
 
 def _os_move(src, dst, overwrite):
     t = OS.tree
+    _enotdir(src)
     if not t.exists(src):
         raise FileNotFoundError(src)
+    _enotdir(dst)
     if not t.parent_ok(dst):
         raise FileNotFoundError(dst)
     if t.is_dir(dst) and not t.is_dir(src):
@@ -216,6 +218,7 @@ class Handle:
         self.key, self.mode, self.pos = key, mode, 0
         if t.is_dir(key):
             raise IsADirectoryError(key)
+        _enotdir(key)
 
         def fresh():
             if not t.parent_ok(key):
@@ -289,11 +292,21 @@ class FileSlice:
         self.f, self.off, self.n = f, off, n
 
 
+def _enotdir(k):
+    """POSIX: a path below a regular file does not 'not exist' (ENOENT), it is 'not a directory' (ENOTDIR)"""
+    par = PARENT.get(k)
+    while par is not None:
+        if OS.tree.kind.get(par) == "file":
+            raise NotADirectoryError(k)
+        par = PARENT.get(par)
+
+
 class OsShim:
     @staticmethod
     def remove(p):
         k = OsPath(p).key()
         t = OS.tree
+        _enotdir(k)
         if not t.exists(k):
             raise FileNotFoundError(k)
         if t.is_dir(k):
@@ -305,6 +318,7 @@ class OsShim:
     def rmdir(p):
         k = OsPath(p).key()
         t = OS.tree
+        _enotdir(k)
         if not t.exists(k):
             raise FileNotFoundError(k)
         if not t.is_dir(k):
@@ -317,6 +331,7 @@ class OsShim:
     def mkdir(p):
         k = OsPath(p).key()
         t = OS.tree
+        _enotdir(k)
         if t.exists(k):
             raise FileExistsError(k)
         if not t.parent_ok(k):
